@@ -303,9 +303,9 @@ func (p *parser) parseAssignExpression(id *ast.Identifier) ast.Expression {
 	p.nextToken()
 	ae.Value = p.parseExpression(LOWEST)
 
-	if p.peekTokenIs(token.SEMICOLON) {
-		p.nextToken()
-	}
+	// a terminating semicolon is left to the enclosing statement: consuming
+	// it here would let the caller's operator loop run on into whatever
+	// follows ("x = 1; [2]" would index the assignment)
 
 	return ae
 }
